@@ -166,3 +166,24 @@ Lemma callers_reviewed :
   signers_issigned_prefers_stream = true /\ signers_testpath_known = true /\ magic_zip_cleans = true /\
   (forall b, token_sign_refuses_verify_only b = remote_sign_refuses_verify_only b) /\ (forall b, token_sign_refuses_stdin b = remote_sign_refuses_stdin b).
 Proof. repeat split; reflexivity. Qed.
+
+(* ---- per-module fields: who may read standard input, who signs with PGP keys *)
+Lemma module_fields :
+  map m_name (filter m_stdin signers_table) = [bs "pgp"] /\
+  map m_name (filter (fun m => negb (Z.land (m_cert m) signers_CertTypePgp =? 0)) signers_table) = [bs "deb"; bs "pgp"; bs "rpm"] /\
+  forallb (fun m => (m_cert m =? signers_CertTypeX509) || (m_cert m =? signers_CertTypePgp)) signers_table = true /\
+  map m_name (filter (fun m => negb (m_has_sign m)) signers_table) = [bs "mach-o-fat"; bs "ipa"; bs "pkcs7"] /\
+  forallb (fun m => m_has_verify m || m_has_stream m || bytes_eqb (m_name m) (bs "cosign")) signers_table = true.
+Proof. vm_compute. repeat split; reflexivity. Qed.
+Lemma stdin_rules :
+  (forall det, sign_route [] (bs "-") true det = Refused E_STDIN) /\
+  (forall det, option_map m_name (route_mod (sign_route (bs "pgp") (bs "-") true det)) = Some (bs "pgp")) /\
+  (forall m det, In m signers_table -> m_has_sign m = true -> m_stdin m = false -> sign_route (m_name m) (bs "-") true det = Refused E_NO_STDIN) /\
+  (forall m name det, In m signers_table -> m_has_sign m = false -> sign_route (m_name m) name true det = Refused E_VERIFY_ONLY).
+Proof.
+  split; [intros det; reflexivity|]. split; [intros det; reflexivity|]. split.
+  - intros m det H Hs Hi. unfold signers_table in H. cbn [In] in H.
+    repeat (destruct H as [<-|H]; [first [discriminate Hs|discriminate Hi|reflexivity]|]). contradiction.
+  - intros m name det H Hs. unfold signers_table in H. cbn [In] in H.
+    repeat (destruct H as [<-|H]; [first [discriminate Hs|reflexivity]|]). contradiction.
+Qed.
